@@ -4,6 +4,7 @@ package c16
 import (
 	"fmt"
 	"math"
+	"slices"
 	"sort"
 	"testing"
 	"time"
@@ -45,7 +46,7 @@ func TestRandomGeneratorRapid(t *testing.T) {
 		}
 		var taken []uint32
 		sameSeed := false
-		switch rapid.IntRange(0, 3).Draw(rt, "takenKind") {
+		switch rapid.IntRange(0, 5).Draw(rt, "takenKind") {
 		case 0:
 		case 1:
 			// the output of a same-seed generator: every first candidate is already taken
@@ -60,6 +61,30 @@ func TestRandomGeneratorRapid(t *testing.T) {
 			sameSeed = true
 		case 2:
 			taken = rapid.SliceOfN(rapid.Uint32(), 0, 300).Draw(rt, "taken")
+		case 4:
+			// the output of a same-seed generator handed over in another order (the interface takes a set)
+			n := count
+			if n < 1 {
+				n = 1
+			}
+			if n > 5000 {
+				n = 5000
+			}
+			taken = ring.NewRandomTokenGeneratorWithSeed(seed).GenerateTokens(n, nil)
+			switch rapid.IntRange(0, 2).Draw(rt, "takenOrder") {
+			case 0:
+				slices.Reverse(taken)
+			case 1:
+				k := rapid.IntRange(0, len(taken)-1).Draw(rt, "rotateBy")
+				taken = append(append([]uint32{}, taken[k:]...), taken[:k]...)
+			default:
+				for i := range taken {
+					j := vx.Mix(uint64(seed)+uint64(i)*7919, len(taken))
+					taken[i], taken[j] = taken[j], taken[i]
+				}
+			}
+			sameSeed = true
+			vx.Class("taken_set_is_unsorted_same_seed_output", 1)
 		default:
 			// dense low region and boundary values, with duplicates
 			taken = rapid.SliceOfN(rapid.Uint32Range(0, 64), 0, 100).Draw(rt, "takenDense")
@@ -197,6 +222,118 @@ func spreadZone(t *testing.T, zone, n int) {
 	}
 	vx.Note("zone %d: worst spread over prefixes 1..%d = %.4f%% at n=%d", zone, n, worst, worstN)
 	vx.Sample("spread_zone", map[string]any{"zone": zone, "instances": n, "worst_spread_percent": worst, "at_prefix": worstN})
+}
+
+// TestSpreadAttribution uses the attribution a generator for instance n computes for all instances
+// 0..n of its zone (hook): it must agree with what the generators of those instances return
+// themselves ("the same tokens whoever computes them"), and the spread over the whole zone and over
+// sampled prefixes must stay within one percent — for zone sizes far beyond TestSpreadPrefixes' quick range.
+func TestSpreadAttribution(t *testing.T) {
+	sizes := []int{2, 3, 17, 150, 511, 512, 513, 1000, 1111, 1112, 1113, 1200, 1300, 1500, 1777, 2000}
+	if vx.Thorough() {
+		for n := 1100; n <= 2000; n += 37 {
+			sizes = append(sizes, n)
+		}
+	}
+	idx := 0
+	for _, n := range sizes {
+		for zone := 0; zone < 8; zone++ {
+			idx++
+			if !vx.Mine(idx) || (!vx.Thorough() && (zone+n)%4 != 0) {
+				continue
+			}
+			g := ring.NewSpreadMinimizingTokenGeneratorForInstanceAndZoneID("ingester-zone-x-", n-1, zone, false)
+			by, err := g.VerifTokensByInstanceID()
+			if err != nil {
+				t.Fatalf("zone %d, %d instances: %v", zone, n, err)
+			}
+			vx.Eval(1)
+			vx.NonTrivial(vx.FP("attribution", zone, n))
+			if len(by) != n {
+				t.Fatalf("zone %d: the generator of instance %d attributes tokens to %d instances, want %d", zone, n-1, len(by), n)
+			}
+			type tk struct {
+				t    uint32
+				inst int
+			}
+			var all []tk
+			seen := map[uint32]int{}
+			for i := 0; i < n; i++ {
+				toks := by[i]
+				if len(toks) != 512 {
+					t.Fatalf("zone %d, %d instances: instance %d is attributed %d tokens, want 512", zone, n, i, len(toks))
+				}
+				for _, x := range toks {
+					if int(x%8) != zone {
+						t.Fatalf("zone %d instance %d: token %d is not congruent to the zone index modulo 8", zone, i, x)
+					}
+					if o, dup := seen[x]; dup {
+						t.Fatalf("zone %d, %d instances: token %d is attributed to instances %d and %d", zone, n, x, o, i)
+					}
+					seen[x] = i
+					all = append(all, tk{x, i})
+				}
+			}
+			// whoever computes them: the own generators of sampled instances return the attributed tokens
+			for _, k := range []int{0, 1, n / 3, n / 2, n - 2, n - 1} {
+				if k < 0 || k >= n || (k > 300 && !vx.Thorough() && k != n-1) {
+					continue
+				}
+				own := ring.NewSpreadMinimizingTokenGeneratorForInstanceAndZoneID("other-", k, zone, true).GenerateTokens(512, nil)
+				want := append(ring.Tokens{}, by[k]...)
+				slices.Sort(want)
+				if fmt.Sprint(own) != fmt.Sprint(want) {
+					t.Fatalf("zone %d: instance %d computes %v... for itself, the generator of instance %d attributes %v... to it", zone, k, head(own), n-1, head(want))
+				}
+				vx.Class("attribution_agrees_with_own_generator", 1)
+			}
+			sort.Slice(all, func(a, b int) bool { return all[a].t < all[b].t })
+			// spread for the whole zone and for sampled prefixes (a prefix = the instances with a smaller index)
+			for _, m := range []int{n, n - 1, n * 9 / 10, n * 3 / 4} {
+				if m < 2 {
+					continue
+				}
+				own := make([]float64, m)
+				var prev uint32
+				first := true
+				var firstTok uint32
+				var lastInst int
+				for _, e := range all {
+					if e.inst >= m {
+						continue
+					}
+					if first {
+						first, firstTok, prev = false, e.t, e.t
+						lastInst = e.inst
+						continue
+					}
+					own[e.inst] += float64(e.t - prev)
+					prev = e.t
+				}
+				_ = lastInst
+				// the first token of the circle owns the wrap-around range
+				for _, e := range all {
+					if e.inst < m {
+						own[e.inst] += float64(uint64(firstTok) + (1 << 32) - uint64(prev))
+						break
+					}
+				}
+				mn, mx := math.MaxFloat64, 0.0
+				for _, o := range own {
+					mn = math.Min(mn, o)
+					mx = math.Max(mx, o)
+				}
+				spread := 100 * (1 - mn/mx)
+				vx.Class("zone_spreads_checked", 1)
+				if spread >= 1 {
+					t.Fatalf("zone %d: with the first %d of %d instances the ownership spread is %.4f%% (min %.0f max %.0f), not within one percent", zone, m, n, spread, mn, mx)
+				}
+				if m == n && vx.WantSample("zone_attribution") {
+					vx.Sample("zone_attribution", map[string]any{"zone": zone, "instances": n, "spread_percent": spread})
+				}
+			}
+		}
+	}
 }
 
 func TestSpreadPrefixes(t *testing.T) {
